@@ -372,23 +372,28 @@ nextinto(struct token *t)
 		if (newline && t->kind == THASH) {
 			directive();
 		} else {
-			newline = tok.kind == TNEWLINE;
+			newline = t->kind == TNEWLINE;
 			break;
 		}
 	}
 }
 
-static struct token *
-rawnext(void)
+/*
+get the next token from the context or the scanner. The token is copied,
+since tokens in a context are shared (with a macro definition, an argument
+list freed when its expansion ends, or a lookahead buffer), and the caller
+may mark its token as ineligible for expansion.
+*/
+static void
+rawnext(struct token *t)
 {
-	struct token *t;
+	struct token *c;
 
-	t = ctxnext();
-	if (!t) {
-		t = &tok;
+	c = ctxnext();
+	if (c)
+		*t = *c;
+	else
 		nextinto(t);
-	}
-	return t;
 }
 
 static bool
@@ -470,14 +475,14 @@ expandfunc(struct macro *m)
 	struct macroarg *arg;
 	struct array str, tok;
 	size_t i, depth, paren;
-	struct token *t;
+	struct token cur, *t = &cur;
 
 	/* read macro arguments */
 	paren = 0;
 	depth = macrodepth;
 	tok = (struct array){0};
 	arg = xreallocarray(NULL, m->nparam, sizeof(*arg));
-	t = rawnext();
+	rawnext(t);
 	for (i = 0; i < m->nparam; ++i) {
 		p = &m->param[i];
 		if (p->flags & PARAMSTR) {
@@ -504,7 +509,7 @@ expandfunc(struct macro *m)
 				arrayaddbuf(&tok, t, sizeof(*t));
 				++arg[i].ntoken;
 			}
-			t = rawnext();
+			rawnext(t);
 		}
 		if (p->flags & PARAMSTR) {
 			arrayaddbuf(&str, "\"", 2);
@@ -515,7 +520,7 @@ expandfunc(struct macro *m)
 		}
 		if (t->kind == TRPAREN)
 			break;
-		t = rawnext();
+		rawnext(t);
 	}
 	if (i + 1 < m->nparam)
 		error(&t->loc, "not enough arguments for macro '%s'", m->name);
@@ -628,11 +633,11 @@ keyword(struct token *tok)
 void
 next(void)
 {
-	struct token *t;
+	struct token t;
 
-	do t = rawnext();
-	while (expand(t) || t->kind == TNEWLINE && !(ppflags & PPNEWLINE));
-	tok = *t;
+	do rawnext(&t);
+	while (expand(&t) || t.kind == TNEWLINE && !(ppflags & PPNEWLINE));
+	tok = t;
 	if (tok.kind == TIDENT)
 		keyword(&tok);
 }
